@@ -156,7 +156,16 @@ Definition end_ok (e : option term) (x : term) : bool :=
   match e with None => true | Some b => N.eqb x b end.
 
 (* the body of the [for s, o in eval_path(...)] loop of _fwd; [rec] is the
-   recursive call _fwd(o, obj, seen); the state is the shared [seen] set *)
+   search below the node o (_fwd(o, obj, seen) in the recursive formulation); the
+   state is the shared [seen] set.
+   Since the "fix:" commit for finding F4f the code runs this search with an explicit
+   stack of (iterator, label) entries instead of one generator frame per step.  That
+   is the same function: an entry of the stack is exactly a pending [fwd_loop] (the
+   rest [r] of the list being iterated, and the label [fst so] under which the yields
+   below are reported), pushing an entry is the call of [rec], popping it is its
+   return, [seen] is threaded identically and the yields come in the same order.
+   The model is a mathematical recursion (fuel = bound on the depth of the search),
+   it has no interpreter stack; suite deep_chain runs chains beyond the recursion limit. *)
 Definition dfs_t := res (list pr * list term).
 
 Fixpoint fwd_loop (rec : term -> list term -> dfs_t) (more : bool) (obj : option term)
@@ -565,3 +574,50 @@ Definition spec_ok_same (c : case) (o : obs) : bool :=
   | _ => false
   end.
 Definition wf_same (c : case) : Prop := wf c /\ c_s c = None /\ c_o c = None.
+
+(* ------------------------------------------------------------------ *)
+(* Long chains: n_0 -p-> n_1 -p-> ... -p-> n_k.  The searches of the code used to be
+   recursive generators and raised RecursionError beyond ~1000 steps (finding F4f,
+   repaired); the suite "deep_chain" runs closures over chains far longer than the
+   interpreter's recursion limit and compares the NUMBER of answers with the
+   model's (the same [eval]) and with the closed form. *)
+Fixpoint chain_from (k : nat) (i : N) : graph :=
+  match k with
+  | O => []
+  | S k' => (i, 3%N, N.succ i) :: chain_from k' (N.succ i)
+  end.
+
+Record dcase := { d_len : nat; d_mod : mulmod; d_s : bool; d_o : bool }.   (* which ends are bound (first / last node) *)
+Definition dobs := res N.
+
+Definition d_graph (c : dcase) : graph := chain_from (d_len c) 100%N.
+Definition d_end (b : bool) (x : N) : option term := if b then Some x else None.
+
+Definition dmodel_obs (c : dcase) : dobs :=
+  let g := d_graph c in
+  rmap (fun l => N.of_nat (length l))
+       (eval g (fuel g) (Mul (Iri 3%N) (d_mod c)) (d_end (d_s c) 100%N) (d_end (d_o c) (100 + N.of_nat (d_len c))%N)).
+
+(* closed form: pairs (n_i, n_j) of the chain related by p+ (i < j), p* (i <= j), p? (j - i <= 1) *)
+Definition d_count (c : dcase) : N :=
+  let k := N.of_nat (d_len c) in
+  match d_mod c, d_s c, d_o c with
+  | OneOrMore, true, true => if N.eqb k 0 then 0 else 1
+  | OneOrMore, false, false => k * (k + 1) / 2
+  | OneOrMore, _, _ => k
+  | ZeroOrMore, true, true => 1
+  | ZeroOrMore, false, false => (k + 1) * (k + 2) / 2
+  | ZeroOrMore, _, _ => k + 1
+  | ZeroOrOne, true, true => if N.leb k 1 then 1 else 0
+  | ZeroOrOne, false, false => 2 * k + 1
+  | ZeroOrOne, _, _ => if N.eqb k 0 then 1 else 2
+  end.
+
+Definition dobs_eqb (a b : dobs) : bool :=
+  match a, b with
+  | Ok x, Ok y => N.eqb x y
+  | OutOfFuel, OutOfFuel | Raised, Raised => true
+  | _, _ => false
+  end.
+Definition dspec_ok (c : dcase) (o : dobs) : bool :=
+  match o with Ok x => N.eqb x (d_count c) | _ => false end.
